@@ -452,6 +452,10 @@ func (p *Program) Replay(opts CheckOpts, name string, res *OblResult, frs []*Fun
 	if fr == nil || fr.Exec == nil {
 		return nil
 	}
+	if fr.Exec == nil || fr.Exec.Fn == nil {
+		// a theorem (no function to run): the violation is reported with the solver's output only
+		return nil
+	}
 	wantGauge := fr.Contract.Replay == "metering"
 	for _, t := range res.O.Tags {
 		if t == "C32" {
